@@ -32,13 +32,13 @@ POSITIVE = {
     "LogNormal": ["sigma"],
     "Normal": ["sigma"],
     "ExponentiatedWeibull": ["alpha", "beta", "delta"],
-    "GeneralizedGamma": ["m", "c", "lambda_"],
+    "GeneralizedGamma": ["m", "lambda_"],  # scipy.stats.gengamma (the delegate) admits c < 0
     "VonMises": ["kappa"],
     "LogNormalNormFit": ["mu_norm", "sigma_norm"],
     "ScipyGamma": ["a", "scale"],
     "ScipyGumbelR": ["scale"],
     "ScipyRayleigh": ["scale"],
-    "ScipyGenGamma": ["a", "c", "scale"],
+    "ScipyGenGamma": ["a", "scale"],  # scipy admits c < 0
     "ScipyGenExtreme": ["scale"],
 }
 REAL_SUPPORT = {"Normal", "ScipyGumbelR", "ScipyGenExtreme"}
@@ -129,7 +129,10 @@ def check_fixed(case, ctx):
     def after_fit(label):
         p = d.parameters
         for k, v in fixed.items():
-            if not abs(float(p[k]) - v) <= 1e-12 * abs(v) + (1e-300 if v != 0 else 0.0):
+            # location-like parameters (angles, means, offsets) live on an additive scale: round-off is
+            # relative to max(|v|, 1), not to a value that happens to be close to 0
+            is_loc = k in ("mu", "loc", "gamma")
+            if not abs(float(p[k]) - v) <= 1e-12 * (max(abs(v), 1.0) if is_loc else abs(v)):
                 ctx.violation(f"fixed_changed:{family}:{k}:{method}", f"{label}: f_{k}={v!r} but after fit {k}={p[k]!r}")
                 return False
         for k in names:
